@@ -554,6 +554,9 @@ trait BytesLike {
   fn get_int(&mut self, ty: &str, ord: &str) -> Option<Option<String>>;
   fn put_var(&mut self, ty: &str, v: &str) -> Option<Option<usize>>;
   fn get_var(&self, ty: &str) -> Option<Option<(usize, String)>>;
+  /// the panicking `put_*_varint_unchecked` / `get_*_varint_unchecked`
+  fn put_varu(&mut self, ty: &str, v: &str) -> Option<usize>;
+  fn get_varu(&mut self, ty: &str) -> Option<(usize, String)>;
   fn put_slice_(&mut self, s: &[u8]) -> bool;
   fn set_len_(&mut self, n: usize);
   fn align_to_<T>(&mut self) -> Option<*mut u8>;
@@ -592,6 +595,18 @@ macro_rules! int_arms {
       _ => None,
     }
   }};
+  (put_varu $b:ident $ty:ident $v:ident; $($t:ident)*) => { paste::paste! {
+    match $ty {
+      $( stringify!($t) => $v.parse::<$t>().ok().map(|x| $b.[<put_ $t _varint_unchecked>](x)), )*
+      _ => None,
+    }
+  }};
+  (get_varu $b:ident $ty:ident; $($t:ident)*) => { paste::paste! {
+    match $ty {
+      $( stringify!($t) => { let (n, x) = $b.[<get_ $t _varint_unchecked>](); Some((n, x.to_string())) } )*
+      _ => None,
+    }
+  }};
   (get_var $b:ident $ty:ident; $($t:ident)*) => { paste::paste! {
     match $ty {
       $( stringify!($t) => Some($b.[<get_ $t _varint>]().ok().map(|(n, x)| (n, x.to_string()))), )*
@@ -614,6 +629,12 @@ macro_rules! impl_bytes_like {
       }
       fn get_var(&self, ty: &str) -> Option<Option<(usize, String)>> {
         int_arms!(get_var self ty; u16 u32 u64 u128 i16 i32 i64 i128)
+      }
+      fn put_varu(&mut self, ty: &str, v: &str) -> Option<usize> {
+        int_arms!(put_varu self ty v; u16 u32 u64 u128 i16 i32 i64 i128)
+      }
+      fn get_varu(&mut self, ty: &str) -> Option<(usize, String)> {
+        int_arms!(get_varu self ty; u16 u32 u64 u128 i16 i32 i64 i128)
       }
       fn put_slice_(&mut self, s: &[u8]) -> bool { self.put_slice(s).is_ok() }
       fn set_len_(&mut self, n: usize) { self.set_len(n) }
@@ -1270,6 +1291,13 @@ impl<A: Flavour> Case<A> {
           a.data_offset()
         )
       }
+      // the reserved slice as the user sees it: length and position-weighted byte sum (mod 2^32)
+      "rres" => {
+        argc(1)?;
+        let r = a.reserved_slice();
+        let sum = r.iter().enumerate().fold(0u64, |acc, (i, b)| (acc + (i as u64 + 1) * *b as u64) % (1u64 << 32));
+        format!("r=ok val={},{}", r.len(), sum)
+      }
       "wres" => {
         argc(2)?;
         let b: u8 = parse(t[1])?;
@@ -1295,7 +1323,7 @@ impl<A: Flavour> Case<A> {
         "r=ok".to_string()
       }
       // ---- buffer operations -----------------------------------------------------------
-      "put" | "get" | "put_var" | "get_var" | "put_slice" | "set_len" | "align_to"
+      "put" | "get" | "put_var" | "get_var" | "put_varu" | "get_varu" | "put_slice" | "set_len" | "align_to"
       | "put_aligned" | "putT" => {
         if t.len() < 2 {
           return None;
@@ -1336,8 +1364,8 @@ impl<A: Flavour> Case<A> {
     let ok = match t[0] {
       "put" => t.len() == 5 && INTS.contains(&t[2]) && ord_ok(t[3]),
       "get" => t.len() == 4 && INTS.contains(&t[2]) && ord_ok(t[3]),
-      "put_var" => t.len() == 4 && VARS.contains(&t[2]),
-      "get_var" => t.len() == 3 && VARS.contains(&t[2]),
+      "put_var" | "put_varu" => t.len() == 4 && VARS.contains(&t[2]),
+      "get_var" | "get_varu" => t.len() == 3 && VARS.contains(&t[2]),
       "put_slice" => {
         t.len() == 4 && parse::<usize>(t[2]).is_some_and(|l| l <= MAX_SLICE) && parse::<u8>(t[3]).is_some()
       }
@@ -1388,6 +1416,11 @@ impl<A: Flavour> Case<A> {
         Some((n, v)) => format!("r=ok n={n} val={v}"),
         None => "r=Varint".to_string(),
       },
+      "put_varu" => format!("r=ok n={}", b.put_varu(t[2], t[3])?),
+      "get_varu" => {
+        let (n, v) = b.get_varu(t[2])?;
+        format!("r=ok n={n} val={v}")
+      }
       "put_slice" => {
         let (l, x): (usize, u8) = (parse(t[2])?, parse(t[3])?);
         match b.put_slice_(&vec![x; l]) {
@@ -1407,7 +1440,11 @@ impl<A: Flavour> Case<A> {
           _ => (1, TypedBufOp::PutT(parse(t[4])?)),
         };
         match dispatch(al, sz, VBuf { b: &mut *b, op })? {
-          Ok(Some(p)) => format!("r=ok po={}", po(p, sz)),
+          Ok(Some(p)) => {
+            let g = (al as usize).min(GUARANTEED_ALIGN.load(Ordering::Relaxed) as usize).max(1);
+            let pa = if po(p, sz) == "dangling" { 0 } else { p as usize % g };
+            format!("r=ok po={} pa={pa}", po(p, sz))
+          }
           Ok(None) => "r=ok".to_string(),
           Err(()) => "r=InsufficientBuffer".to_string(),
         }
@@ -1431,7 +1468,7 @@ impl<A: Flavour> Case<A> {
         // a panicking buffer operation still reports the length of its handle
         let len = matches!(
           t[0],
-          "put" | "get" | "put_var" | "get_var" | "put_slice" | "set_len" | "align_to" | "put_aligned" | "putT"
+          "put" | "get" | "put_var" | "get_var" | "put_varu" | "get_varu" | "put_slice" | "set_len" | "align_to" | "put_aligned" | "putT"
         )
         .then(|| t.get(1).and_then(|h| parse::<u32>(h)).and_then(|h| self.handles.get(&h)).and_then(|s| s.len()))
         .flatten();
@@ -1774,11 +1811,11 @@ impl<A: Flavour> Case<A> {
 }
 
 /// First tokens of the lines that need an arena (answered `r=closed` while the case is closed).
-const ARENA_OPS: [&str; 40] = [
+const ARENA_OPS: [&str; 43] = [
   "alloc_bytes", "alloc_bytes_owned", "alloc_aligned", "alloc_aligned_owned", "alloc_t", "alloc_t_owned",
   "alloc_d", "alloc_d_owned", "alloc_z", "alloc_z_owned", "fill", "drop", "detach", "dealloc", "discard_freelist", "set_minseg",
   "inc_discarded", "rewind", "clear", "truncate", "clone", "drop_arena", "rd", "rd_var", "slices",
-  "checksum", "info", "wres", "put", "get", "put_var", "get_var", "put_slice", "set_len", "align_to",
+  "checksum", "info", "wres", "rres", "put", "get", "put_var", "get_var", "put_varu", "get_varu", "put_slice", "set_len", "align_to",
   "put_aligned", "putT", "flush", "remove_on_drop", "close",
 ];
 
